@@ -64,6 +64,12 @@ func c15Leaves() []eterm {
 		mk("nats create-on-existing-key error", fmt.Errorf("%w: %s", wrongLastSeq(7), "key exists"), P),
 		mk("nats APIError 10071 wrong last sequence", wrongLastSeq(7), P),
 		mk("nats APIError 10071 wrong last sequence: 0", wrongLastSeq(0), P),
+		// the same refusal as a server of another version words it: an API error whose
+		// description says "wrong last sequence" under an error code nats.go does not know
+		// (nats-server 2.12 in a cluster: 10164, constant text)
+		mk("nats APIError 10164 wrong last sequence (code unknown to the client)", &nats.APIError{Code: 400, ErrorCode: 10164, Description: "wrong last sequence"}, P),
+		mk("nats APIError 10164 wrapped like ErrKeyExists", fmt.Errorf("%w: %s", &nats.APIError{Code: 400, ErrorCode: 10164, Description: "wrong last sequence"}, "key exists"), P),
+		mk("nats APIError unknown code, neutral text", &nats.APIError{Code: 503, ErrorCode: 10999, Description: "something went wrong"}, U),
 		mk("nats.ErrBucketNotFound", nats.ErrBucketNotFound, P),
 		mk("nats.ErrKeyNotFound", nats.ErrKeyNotFound, U),
 		mk("nats.ErrKeyDeleted", nats.ErrKeyDeleted, U),
